@@ -9,6 +9,9 @@ Props/C01.lean).
     `int32`/`int64` bounds the value when the type is integer only;
   * `oneOf` = exactly one sub-schema accepts — with a `discriminator`: the object must carry the property as a
     string, which (when a mapping is given) must be a key of it, and only the mapped sub-schema is considered; `anyOf` = some; `allOf` = all; `not` = the child does not accept;
+  * `pattern` is judged by the regular-expression engine of the CALL (`env.regex`: the default Go translation, or the
+    compiler given with SetSchemaRegexCompiler); with DisablePatternValidation() the keyword is, by the option's purpose,
+    not a constraint; string length is the number of Unicode code points (draft-4: characters as defined by RFC 4627);
   * null: admitted where the schema permits null (`nullable: true` or `"null"` among the types), or —
     the library's documented reading of OpenAPI 3.0 — where the schema has compositions and these
     admit null (e.g. `anyOf: [{nullable: true, …}]`); never otherwise.
@@ -28,7 +31,7 @@ def strSpec (env : Env) (kw : Kw) (s : String) : Prop :=
   kw.permits "string" = true ∧
   kw.minLength ≤ s.length ∧
   (∀ m, kw.maxLength = some m → s.length ≤ m) ∧
-  (kw.pattern ≠ "" → env.regex kw.pattern s = some true) ∧
+  (env.patOff = false → kw.pattern ≠ "" → env.regex kw.pattern s = some true) ∧
   (kw.format ≠ "" → env.strFormat kw.format s ≠ some false)
 
 def arrSpec (kw : Kw) (xs : List J) : Prop :=
@@ -117,7 +120,7 @@ def numSpecB (kw : Kw) (q : Rat) : Bool :=
 def strSpecB (env : Env) (kw : Kw) (s : String) : Bool :=
   kw.permits "string" && decide (kw.minLength ≤ s.length) &&
   (match kw.maxLength with | some m => decide (s.length ≤ m) | none => true) &&
-  (kw.pattern == "" || env.regex kw.pattern s == some true) &&
+  (env.patOff || kw.pattern == "" || env.regex kw.pattern s == some true) &&
   (kw.format == "" || env.strFormat kw.format s != some false)
 
 def arrSpecB (kw : Kw) (xs : List J) : Bool :=
